@@ -229,8 +229,12 @@ def run_case(case):
                     return idx, fault
                 net.begin_op = begin
             try:
-                r = await api.request("GET", f"{scheme}://o.test/", headers={"X-Token": "t"},
-                                      extensions={"trace": trace_cb} if traced else {})
+                ext = {"trace": trace_cb} if traced else {}
+                if hist_no % 4 >= 2:
+                    # a connect timeout shorter than the later pauses of the schedule: the pauses are the schedule's, not the
+                    # timeout's
+                    ext["timeout"] = {"connect": (0.25, 1.0)[hist_no % 2], "read": 9.0, "write": 9.0, "pool": 9.0}
+                r = await api.request("GET", f"{scheme}://o.test/", headers={"X-Token": "t"}, extensions=ext)
                 res["final"] = "ok:%d" % r.status
             except Exception as exc:  # noqa
                 res["final"] = type(exc).__name__
